@@ -13,7 +13,7 @@ import (
 //
 // It returns false and the reason if the account:
 //  1. Is a module account.
-//  2. Is a vesting account which still not expired.
+//  2. Is a vesting account which still not expired (a permanent locked account never expires).
 func CheckIfAccountIsSuitableForDestroying(account sdk.AccountI) (destroyable bool, reason string) {
 	return CheckIfAccountIsSuitableForDestroyingAt(account, time.Now().UTC())
 }
@@ -28,6 +28,12 @@ func CheckIfAccountIsSuitableForDestroyingAt(account sdk.AccountI, now time.Time
 
 	if _, isModuleAcc := account.(sdk.ModuleAccountI); isModuleAcc {
 		reason = "module account is not suitable for destroying"
+		return
+	}
+
+	if _, isPermanentLocked := account.(*vestingtypes.PermanentLockedAccount); isPermanentLocked {
+		// a permanent locked account has no end time (zero), its vesting period never ends
+		reason = "permanent locked vesting account is not suitable for destroying"
 		return
 	}
 
